@@ -5,6 +5,7 @@ import (
 	"encoding/json"
 	"fmt"
 	"strings"
+	"sync"
 	"testing"
 	"time"
 
@@ -69,8 +70,41 @@ func (f *readFaults) GetList(k string) ([]any, error) {
 	return f.FullStorage.GetList(k)
 }
 
+// tierFaults wraps the cache tier BELOW hybrid: it can make the k-th Get of a client's code index on that
+// tier fail (k=0: the quota count's read, k=1: the read inside hybrid.AppendToList when the new code is indexed).
+type tierFaults struct {
+	*memory.Storage
+	mu     sync.Mutex
+	armed  bool
+	failAt int
+	seen   int
+	fired  string
+}
+
+func (f *tierFaults) Get(k string) (any, error) {
+	if strings.HasPrefix(k, "tunnox:index:conncode:target:") {
+		f.mu.Lock()
+		hit := false
+		if f.armed {
+			hit = f.seen == f.failAt
+			f.seen++
+			if hit {
+				f.fired = "tier.Get " + k
+			}
+		}
+		f.mu.Unlock()
+		if hit {
+			return nil, fmt.Errorf("%w (tier Get %s)", vkit.ErrGateFault, k)
+		}
+	}
+	return f.Storage.Get(k)
+}
+
 type hworld struct {
 	rf     *readFaults
+	tf     *tierFaults // hybrid backends only
+	pms    services.PortMappingService
+	mapMax int
 	cancel context.CancelFunc
 	raw    *memory.Storage
 	st     storage.Storage
@@ -79,12 +113,21 @@ type hworld struct {
 	used   int
 }
 
-func newHWorld(backend string, limit int) *hworld {
+func newHWorld(backend string, limit int) *hworld { return newHWorldQ(backend, limit, 1000) }
+
+// backends: memory (used directly) | hybrid (memory as the only cache tier) | hybrid-shared (a node-local
+// memory cache plus the observed memory store as SHARED cache tier, the multi-node configuration)
+func newHWorldQ(backend string, limit, mapLimit int) *hworld {
 	ctx, cancel := context.WithCancel(context.Background())
-	w := &hworld{cancel: cancel, raw: memory.New(ctx), next: 74000000}
+	w := &hworld{cancel: cancel, raw: memory.New(ctx), next: 74000000, mapMax: mapLimit}
 	var under storage.FullStorage = w.raw
-	if backend == "hybrid" {
-		under = hybrid.NewWithSharedCache(ctx, w.raw, nil, nil, hybrid.DefaultConfig())
+	switch backend {
+	case "hybrid":
+		w.tf = &tierFaults{Storage: w.raw}
+		under = hybrid.NewWithSharedCache(ctx, w.tf, nil, nil, hybrid.DefaultConfig())
+	case "hybrid-shared":
+		w.tf = &tierFaults{Storage: w.raw}
+		under = hybrid.NewWithSharedCache(ctx, memory.New(ctx), w.tf, nil, hybrid.DefaultConfig())
 	}
 	w.rf = &readFaults{FullStorage: under}
 	w.st = w.rf
@@ -93,8 +136,9 @@ func newHWorld(backend string, limit int) *hworld {
 	idm := idgen.NewIDManager(w.st, ctx)
 	sp, _ := services.NewSimpleStatsProvider(w.st, ctx)
 	pms := services.NewPortMappingService(pmRepo, idm, sp.GetCounter(), ctx)
+	w.pms = pms
 	w.cc = services.NewConnectionCodeService(repos.NewConnectionCodeRepository(repo), pms, repos.NewPortMappingRepo(repo),
-		&services.ConnectionCodeServiceConfig{MaxActiveCodesPerClient: limit, MaxActiveMappingsPerClient: 1000}, ctx)
+		&services.ConnectionCodeServiceConfig{MaxActiveCodesPerClient: limit, MaxActiveMappingsPerClient: mapLimit}, ctx)
 	return w
 }
 
@@ -159,9 +203,12 @@ func runHistory(t vkit.TB, w *hworld, c Case) bool {
 		if len(a) > 1 && a[0] != 'C' {
 			fmt.Sscanf(a[1:], "%d", &idx)
 		}
-		faultAt := -1
+		faultAt, tierAt := -1, -1
 		if strings.HasPrefix(a, "Cf") {
 			fmt.Sscanf(a[2:], "%d", &faultAt)
+		}
+		if strings.HasPrefix(a, "Ca") && w.tf != nil { // tier-level read fault (hybrid backends)
+			fmt.Sscanf(a[2:], "%d", &tierAt)
 		}
 		var h *hcode
 		if a[0] != 'C' {
@@ -181,8 +228,21 @@ func runHistory(t vkit.TB, w *hworld, c Case) bool {
 			}
 			snap := w.records()
 			w.rf.armed, w.rf.failAt, w.rf.seen, w.rf.fired = faultAt >= 0, faultAt, 0, ""
+			if w.tf != nil {
+				w.tf.mu.Lock()
+				w.tf.armed, w.tf.failAt, w.tf.seen, w.tf.fired = tierAt >= 0, tierAt, 0, ""
+				w.tf.mu.Unlock()
+			}
 			rec, err := w.cc.CreateConnectionCode(&services.CreateConnectionCodeRequest{TargetClientID: target, TargetAddress: "tcp://10.0.0.9:80", ActivationTTL: time.Hour, CreatedBy: "verif"})
 			w.rf.armed = false
+			if w.tf != nil {
+				w.tf.mu.Lock()
+				w.tf.armed = false
+				if w.tf.fired != "" {
+					w.rf.fired = w.tf.fired
+				}
+				w.tf.mu.Unlock()
+			}
 			faulted := w.rf.fired != ""
 			if err == nil {
 				codes = append(codes, &hcode{rec: rec, state: "active", present: true})
@@ -257,13 +317,18 @@ func TestQuotaHistoriesExhaustive(t *testing.T) {
 	}
 	for q := 1; q <= 3; q++ { // creates whose k-th quota-count read fails (k=0: the index list, k>=1: a code record)
 		spaces = append(spaces, space{q, 5, []string{"C", "Cf0", "Cf1", "Cf2", "Cf3", "R0", "L0"}})
+		// reads of the index on the cache tier below hybrid: the count's read and the read inside the list append
+		spaces = append(spaces, space{q, 5, []string{"C", "Ca0", "Ca1", "R0", "L0"}})
 	}
 	if vkit.Thorough() {
 		spaces = append(spaces, space{3, 7, []string{"C", "R0", "R1", "L0", "L1"}}, space{2, 7, []string{"C", "R0", "A0", "L0", "L1", "L2"}})
 	}
 	total := 0
 	for _, sp := range spaces {
-		for _, backend := range []string{"memory", "hybrid"} {
+		for _, backend := range []string{"memory", "hybrid", "hybrid-shared"} {
+			if backend == "hybrid-shared" && !strings.Contains(strings.Join(sp.alpha, ","), "Ca") {
+				continue
+			}
 			w := newHWorld(backend, sp.limit)
 			n := 1
 			for i := 0; i < sp.depth; i++ {
@@ -300,13 +365,16 @@ func TestQuotaHistoriesExhaustive(t *testing.T) {
 
 func TestQuotaHistoriesRandom(t *testing.T) {
 	vkit.Check(t, 2400, 40000, func(t *rapid.T) {
-		c := Case{Kind: "code-quota-history", Limit: rapid.IntRange(1, 3).Draw(t, "quota"), Backend: rapid.SampledFrom([]string{"memory", "hybrid"}).Draw(t, "backend")}
+		c := Case{Kind: "code-quota-history", Limit: rapid.IntRange(1, 3).Draw(t, "quota"), Backend: rapid.SampledFrom([]string{"memory", "hybrid", "hybrid-shared"}).Draw(t, "backend")}
 		step := rapid.Custom(func(t *rapid.T) string {
 			k := rapid.SampledFrom([]string{"C", "C", "C", "C", "Cf", "R", "R", "A", "L", "L", "L"}).Draw(t, "op")
 			if k == "C" {
 				return k
 			}
 			if k == "Cf" {
+				if rapid.Bool().Draw(t, "tierLevel") {
+					return fmt.Sprintf("Ca%d", rapid.IntRange(0, 1).Draw(t, "failingTierRead"))
+				}
 				return fmt.Sprintf("Cf%d", rapid.IntRange(0, 4).Draw(t, "failingRead"))
 			}
 			return fmt.Sprintf("%s%d", k, rapid.IntRange(0, 4).Draw(t, "code"))
